@@ -21,6 +21,7 @@ LogMatch(g, ob, tol) ==
   /\ Len(g.r) = Len(ob.log)
   /\ \A i \in 1..Len(g.r) :
        /\ \/ g.r[i] = ob.log[i].r
+          \/ ob.log[i].r = "skip"                                   \* Unspecified: any result
           \/ (ob.log[i].a # "" /\ g.r[i] = ob.log[i].a)
           \/ (tol /\ ob.log[i].a # "" /\ g.r[i] = "panic")
        /\ g.d[i] = ob.log[i].d
@@ -30,6 +31,7 @@ Same(c, ob, tol) ==
   /\ g.files = ob.files /\ g.caps = ob.caps
   /\ IF c.head = "vw:do"
      THEN ~c.panic /\ g.exc = ob.exc /\ LogMatch(g, ob, tol) /\ g.closed = ob.closed
+     ELSE IF ob.log # <<>> /\ ob.log[Len(ob.log)].r = "skip" THEN TRUE                  \* the builtin's write is Unspecified
      ELSE IF c.panic THEN tol /\ ob.log # <<>> /\ ob.log[Len(ob.log)].a # ""      \* the builtin's own write faulted
      ELSE \/ (g.exc = "") = (ob.exc = "")
           \/ (ob.log # <<>> /\ ob.log[Len(ob.log)].a # "" /\ g.exc = "")             \* dropped instead of raised
